@@ -248,7 +248,7 @@ def generate_slurm_command(
     if cwd is not None:
         command_prepend_lst += ["-D", cwd]
     if threads_per_core > 1:
-        command_prepend_lst += ["--cpus-per-task" + str(threads_per_core)]
+        command_prepend_lst += ["--cpus-per-task=" + str(threads_per_core)]
     if gpus_per_core > 0:
         command_prepend_lst += ["--gpus-per-task=" + str(gpus_per_core)]
     if openmpi_oversubscribe:
